@@ -60,7 +60,8 @@ def expand_item(mod, item):
             out["violations"].append({"sig": {"rule": rule, "detail": detail, "init": init if mod.SIG_INIT else "*"},
                                       "witness": {"init": init, "history": h, "phase": "invariants"}, "msg": msg})
         succ.append({"op": op, "hash": hsh, "nerr": len(errs),
-                     "label": mod.state_label(m) if hasattr(mod, "state_label") else None})
+                     "label": (mod.state_label_hist(m, h) if hasattr(mod, "state_label_hist") else
+                               mod.state_label(m) if hasattr(mod, "state_label") else None)})
         for c in mod.cover_of(m, h):
             out["cover"].append(c)
     return out
